@@ -11,6 +11,7 @@ import (
 	"path/filepath"
 	"strconv"
 	"strings"
+	"sync"
 
 	"github.com/martian-lang/martian/martian/core"
 	"github.com/martian-lang/martian/martian/syntax"
@@ -1136,6 +1137,9 @@ func runC15(c *Ctx) {
 			break
 		}
 		c15LockHistory(c, rt, pr, k)
+		if k == 0 && c.Thorough {
+			c15LockRace(c, rt, pr, 600)
+		}
 	}
 }
 
@@ -1250,67 +1254,114 @@ func c15LockHistory(c *Ctx, rt *core.Runtime, pr *c15Pair, n int) {
 	if err != nil {
 		return
 	}
-	// simulated mrp processes 0..3; process 0 invoked and holds the lock.  objs[p] = what p has
-	// registered with util.RegisterSignalHandler (also when its attach was refused)
-	const nproc = 4
+	// simulated mrp processes 0..nproc-1; process 0 invoked and holds the lock.  objs[p] = what p has
+	// registered with util.RegisterSignalHandler (also when its attach was refused).
+	// Actions: L attach for writing (= LTS check, then write if it passed), U unlock, S die through the
+	// handlers p registered, K die without any handler (SIGKILL), R an operator deletes _lock (only when
+	// no simulated process owns the pipestance).
+	nproc := 3 + c.Rng.Intn(4)
 	held := map[int]*core.Pipestance{0: ps0}
 	objs := map[int][]util.HandlerObject{0: c15NewObjects(before)}
-	ops := []string{"L0"}
-	got := []string{"1"}
+	coarse, fine := []string{"L0"}, []string{"C0", "W0"}
+	got, gotFine := []string{"1"}, []string{"1", "1"}
+	usedKR := false
 	lockExists := func() bool {
 		_, err := os.Stat(filepath.Join(psdir, "_lock"))
 		return err == nil
 	}
-	for step, m := 0, 8+c.Rng.Intn(12); step < m; step++ {
+	for step, m := 0, 8+c.Rng.Intn(14); step < m; step++ {
 		p := c.Rng.Intn(nproc)
 		h, holds := held[p]
+		k := c.Rng.Intn(12)
 		switch {
-		case holds && c.Rng.Intn(2) == 0:
+		case k == 0 && len(held) == 0:
+			os.Remove(filepath.Join(psdir, "_lock"))
+			usedKR = true
+			fine = append(fine, "R")
+			gotFine = append(gotFine, "1")
+		case k == 1:
+			// SIGKILL: p vanishes, nothing it registered runs
+			for _, o := range objs[p] {
+				util.UnregisterSignalHandler(o)
+			}
+			objs[p] = nil
+			delete(held, p)
+			usedKR = true
+			fine = append(fine, fmt.Sprintf("K%d", p))
+			gotFine = append(gotFine, "1")
+		case holds && k < 6:
 			h.Unlock()
 			objs[p] = nil
 			delete(held, p)
-			ops = append(ops, fmt.Sprintf("U%d", p))
+			coarse = append(coarse, fmt.Sprintf("U%d", p))
+			fine = append(fine, fmt.Sprintf("U%d", p))
 			got = append(got, "1")
-		case holds || c.Rng.Intn(3) == 0:
-			// p dies through the signal-handler path (holder or not, attached before or not)
+			gotFine = append(gotFine, "1")
+		case holds || k < 5:
+			// p dies through the signal-handler path (owner or not, attached before or not)
 			had := lockExists()
 			c15Die(objs[p])
 			objs[p] = nil
 			delete(held, p)
-			ops = append(ops, fmt.Sprintf("S%d", p))
+			coarse = append(coarse, fmt.Sprintf("S%d", p))
+			fine = append(fine, fmt.Sprintf("S%d", p))
 			got = append(got, "1")
+			gotFine = append(gotFine, "1")
 			if !holds && had && !lockExists() {
 				r.violate(Violation{Kind: "property", Key: "C15:refused-attacher-removed-lock",
-					What:   fmt.Sprintf("process %d, which does not hold the pipestance (its attach was refused), died through the signal-handler path and removed the live holder's _lock", p),
-					Input:  map[string]interface{}{"history": strings.Join(ops, ","), "program": pr.a.text},
-					Broken: "theorem Props.C15.at_most_one_writer"})
+					What:  fmt.Sprintf("process %d, which does not own the pipestance (its attach was refused), died through the signal-handler path and removed _lock", p),
+					Input: map[string]interface{}{"history": strings.Join(fine, ","), "program": pr.a.text},
+					Broken: "theorem Props.C15.lts_death_of_bystander_changes_nothing"})
 			}
 		default:
 			snap := c15RegistrySet()
+			hadLock, hadHolders := lockExists(), len(held)
 			np, err := c15Attach(rt, psdir, pr.a, false)
 			objs[p] = append(objs[p], c15NewObjects(snap)...)
-			ops = append(ops, fmt.Sprintf("L%d", p))
+			coarse = append(coarse, fmt.Sprintf("L%d", p))
+			fine = append(fine, fmt.Sprintf("C%d", p))
 			if err == nil {
 				held[p] = np
 				got = append(got, "1")
+				gotFine = append(gotFine, "1", "1")
+				fine = append(fine, fmt.Sprintf("W%d", p))
 			} else {
 				got = append(got, "0")
+				gotFine = append(gotFine, "0")
+				if lockExists() != hadLock || len(held) != hadHolders {
+					r.violate(Violation{Kind: "property", Key: "C15:refused-attach-changed-state",
+						What:  "a refused attach changed the lock file",
+						Input: map[string]interface{}{"history": strings.Join(fine, ","), "program": pr.a.text},
+						Broken: "theorem Props.C15.lts_refused_attach_changes_nothing"})
+				}
 			}
 		}
 		if len(held) > 1 {
-			r.violate(Violation{Kind: "property", Key: "C15:two-writers", What: "two runtimes hold the same pipestance for writing",
-				Input:  map[string]interface{}{"history": strings.Join(ops, ","), "program": pr.a.text},
-				Broken: "theorem Props.C15.at_most_one_writer"})
+			r.violate(Violation{Kind: "property", Key: "C15:two-writers", What: "two runtimes own the same pipestance for writing",
+				Input: map[string]interface{}{"history": strings.Join(fine, ","), "program": pr.a.text},
+				Broken: "theorem Props.C15.lts_mutual_exclusion_partial"})
+			break
+		}
+		if len(held) == 1 && !lockExists() {
+			r.violate(Violation{Kind: "property", Key: "C15:owner-without-lock-file", What: "a live owner exists but _lock does not",
+				Input: map[string]interface{}{"history": strings.Join(fine, ","), "program": pr.a.text},
+				Broken: "theorem Props.C15.lts_mutual_exclusion_partial"})
 			break
 		}
 	}
-	got = append(got, fmt.Sprint(lockExists()), fmt.Sprint(len(held)))
-	rep := c.Drv.Ask("C15.lock", strings.Join(ops, ","))
-	r.count("lock\x00"+strings.Join(ops, ","), true)
+	tail := []string{fmt.Sprint(lockExists()), fmt.Sprint(len(held))}
+	r.count("lock\x00"+strings.Join(fine, ","), true)
 	r.hist("lock-histories")
-	if rep != strings.Join(got, " ") {
-		r.violate(Violation{Kind: "correspondence", Key: "C15:lock-model-mismatch", What: "Lock/Unlock/HandleSignal history differs from the Lean lock model (under the regenerated fact c15RegisterFirst)",
-			Input: strings.Join(ops, ","), Impl: strings.Join(got, " "), Model: rep, Broken: "correspondence C15.lock (Martian.Equiv.lockStep)"})
+	r.hist(fmt.Sprintf("lock-history-actors=%d", nproc))
+	if rep, want := c.Drv.Ask("C15.lts", strings.Join(fine, ",")), strings.Join(append(append(gotFine, tail...), "0"), " "); rep != want {
+		r.violate(Violation{Kind: "correspondence", Key: "C15:lock-lts-mismatch", What: "attach/unlock/signal/kill/rm history on a real pipestance differs from the Lean lock LTS (under the regenerated fact c15RegisterFirst)",
+			Input: strings.Join(fine, ","), Impl: want, Model: rep, Broken: "correspondence C15.lts (Martian.LockLTS.step)"})
+	}
+	if !usedKR {
+		if rep, want := c.Drv.Ask("C15.lock", strings.Join(coarse, ",")), strings.Join(append(got, tail...), " "); rep != want {
+			r.violate(Violation{Kind: "correspondence", Key: "C15:lock-model-mismatch", What: "Lock/Unlock/HandleSignal history differs from the atomic Lean lock model",
+				Input: strings.Join(coarse, ","), Impl: want, Model: rep, Broken: "correspondence C15.lock (Martian.Equiv.lockStep)"})
+		}
 	}
 	for p, h := range held {
 		h.Unlock()
@@ -1320,6 +1371,53 @@ func c15LockHistory(c *Ctx, rt *core.Runtime, pr *c15Pair, n int) {
 		for _, o := range os {
 			util.UnregisterSignalHandler(o)
 		}
+	}
+}
+
+// c15LockRace: two overlapping Lock() calls on an unlocked pipestance (goroutines released
+// together).  Lock() is check-then-write, so both can succeed; timing dependent.
+func c15LockRace(c *Ctx, rt *core.Runtime, pr *c15Pair, trials int) {
+	r := c.Res
+	both := 0
+	for i := 0; i < trials; i++ {
+		psdir := filepath.Join(c.Scratch, fmt.Sprintf("race%06d", i))
+		ps, err := rt.InvokePipeline(pr.a.inv, filepath.Join(pr.a.dir, "invocation.mro"), "ps", psdir,
+			[]string{pr.a.dir}, "verif", nil, nil)
+		if err != nil {
+			return
+		}
+		ps.Unlock()
+		var wg sync.WaitGroup
+		start := make(chan struct{})
+		var got [2]*core.Pipestance
+		for k := 0; k < 2; k++ {
+			wg.Add(1)
+			go func(k int) {
+				defer wg.Done()
+				<-start
+				if p2, err := c15Attach(rt, psdir, pr.a, false); err == nil {
+					got[k] = p2
+				}
+			}(k)
+		}
+		close(start)
+		wg.Wait()
+		if got[0] != nil && got[1] != nil {
+			both++
+		}
+		for _, g := range got {
+			if g != nil {
+				g.Unlock()
+			}
+		}
+		os.RemoveAll(psdir)
+	}
+	r.hist(fmt.Sprintf("lock-race-trials=%d", trials))
+	if both > 0 {
+		r.violate(Violation{Kind: "property", Key: "C15:lock-check-then-write-race",
+			What:  fmt.Sprintf("two overlapping ReattachToPipestance calls for writing BOTH succeeded in %d of %d trials (Pipestance.Lock checks for _lock and then writes it with os.WriteFile, not O_EXCL)", both, trials),
+			Input: map[string]interface{}{"history": "C1,C2,W1,W2", "program": pr.a.text}, Impl: both, Expect: 0,
+			Broken: "theorem Props.C15.lts_mutual_exclusion_partial without its no-overlap hypothesis (negative witness lts_check_then_write_race)"})
 	}
 }
 
